@@ -294,6 +294,10 @@ def emit_trait(t):
             # the C signature of integer-coded results (extra out-parameter, i32 return) is itself what C03/C13 judge: this
             # check must keep compiling whatever the generator does with it, so the slot is compared but not called here
             w("            let _ = f;")
+            if m.ret.startswith("int_"):
+                # a method marked (itself or through its trait) to use integer results has a C signature that returns the code
+                w("            let tn = ::std::any::type_name_of_val(&getter);")
+                w("            if !tn.trim_end().ends_with(\"-> i32\") { return Err((\"vtable:int_result_signature\".into(), format!(\"method `%s` of %s is marked to use integer results but its vtable entry is `{}` (no i32 code)\", tn))); }" % (m.name, t.name))
             w("            seen_ids.push(%d);" % (t.idx * 16 + j))
             w("        }")
             continue
